@@ -34,6 +34,9 @@ func kBlock(args []string) (string, string) {
 	if mem == 0 {
 		mem = 1 << 20
 	}
+	// fix=t: the record is made with the syntax repair on; an HTTP head without its terminating blank line then gets a CRLF
+	// appended, and every accessor has to describe the block WITH it
+	fix := cfg["fix"] == "t" && (cfg["src"] == "built" || cfg["src"] == "parsed")
 	var blk gowarc.Block
 	switch cfg["src"] {
 	case "direct-cached", "direct-uncached":
@@ -52,7 +55,7 @@ func kBlock(args []string) (string, string) {
 			}
 		}
 		// the accessors must describe the block whatever options the record was made under (add-missing / repair flags, policies)
-		rb := gowarc.NewRecordBuilder(rt, gowarc.WithBufferMaxMemBytes(int64(mem)), gowarc.WithFixSyntaxErrors(false), gowarc.WithSpecViolationPolicy(gowarc.ErrIgnore), gowarc.WithSyntaxErrorPolicy(gowarc.ErrIgnore),
+		rb := gowarc.NewRecordBuilder(rt, gowarc.WithBufferMaxMemBytes(int64(mem)), gowarc.WithFixSyntaxErrors(fix), gowarc.WithSpecViolationPolicy(gowarc.ErrIgnore), gowarc.WithSyntaxErrorPolicy(gowarc.ErrIgnore),
 			gowarc.WithAddMissingDigest(cfg["adddig"] != "f"), gowarc.WithFixDigest(cfg["fixdig"] != "f"), gowarc.WithAddMissingContentLength(true))
 		rb.AddWarcHeader("Content-Type", ct)
 		_, _ = rb.Write(content)
@@ -74,7 +77,7 @@ func kBlock(args []string) (string, string) {
 		raw := fmt.Sprintf("WARC/1.1\r\nWARC-Type: %s\r\nWARC-Record-ID: <urn:uuid:1>\r\nWARC-Date: 2020-01-01T00:00:00Z\r\nContent-Type: %s\r\nContent-Length: %d\r\n\r\n", typ, ct, len(content))
 		data := append(append([]byte(raw), content...), "\r\n\r\n"...)
 		spec, _ := strconv.Atoi(cfg["spec"])
-		rec, _, _, err := gowarc.NewUnmarshaler(gowarc.VerifOptions(0, spec, 0, 0, gowarc.WithBufferMaxMemBytes(int64(mem)), gowarc.WithFixSyntaxErrors(false),
+		rec, _, _, err := gowarc.NewUnmarshaler(gowarc.VerifOptions(0, spec, 0, 0, gowarc.WithBufferMaxMemBytes(int64(mem)), gowarc.WithFixSyntaxErrors(fix),
 			gowarc.WithAddMissingDigest(cfg["adddig"] != "f"), gowarc.WithFixDigest(cfg["fixdig"] != "f"))...).Unmarshal(bufio.NewReader(bytes.NewReader(data)))
 		if err != nil || rec == nil {
 			return "parse-error", "ok"
@@ -90,6 +93,9 @@ func kBlock(args []string) (string, string) {
 	headLen := 0
 	if pb, ok := blk.(gowarc.ProtocolHeaderBlock); ok && (kind == "httpReq" || kind == "httpResp") {
 		headLen = len(pb.ProtocolHeaderBytes())
+	}
+	if _, found := splitHead(content); fix && isHttp && !found {
+		content = append(append([]byte{}, content...), '\r', '\n')
 	}
 	full := content
 	payload := content[headLen:]
@@ -234,6 +240,13 @@ func genC16(r *rng, n int, tier string, emit func(string, ...string)) {
 			content = []byte(pick(sub, blockPool))
 		}
 		src := pick(sub, []string{"direct-cached", "direct-uncached", "direct-uncached", "built", "parsed"})
+		fix := sub.chance(1, 2)
+		if isHttp && (src == "built" || src == "parsed") && sub.chance(1, 3) {
+			// a head without its terminating blank line (and then nothing behind it): with the repair on the block grows by a CRLF
+			content = []byte(pick(sub, []string{"HTTP/1.1 200 OK\r\nServer: x\r\n", "HTTP/1.1 200 OK\r\nServer: x", "GET / HTTP/1.1\r\nHost: example.com\r\n",
+				"GET / HTTP/1.1\r\nHost: example.com\r\nX-Pad: " + strings.Repeat("p", sub.intn(60)), "HTTP/1.0 404 Not Found\n", "POST /a HTTP/1.1\nHost: h\nContent-Length: 0\n"}))
+			stat("block-head", "unterminated fix="+tf(fix))
+		}
 		mem := pick(sub, []int{1, 2, 5, 16, 40, 0})
 		var ops []string
 		for j := 0; j < opsN; j++ {
@@ -258,7 +271,7 @@ func genC16(r *rng, n int, tier string, emit func(string, ...string)) {
 			ops = append(ops, op)
 		}
 		stat("block-src", src)
-		emit("block", fmt.Sprintf("src=%s;http=%s;mem=%d;spec=%d;adddig=%s;fixdig=%s", src, tf(isHttp), mem, sub.intn(3), tf(sub.chance(2, 3)), tf(sub.chance(2, 3))), hx(content), strings.Join(ops, ";"))
+		emit("block", fmt.Sprintf("src=%s;http=%s;mem=%d;spec=%d;adddig=%s;fixdig=%s;fix=%s", src, tf(isHttp), mem, sub.intn(3), tf(sub.chance(2, 3)), tf(sub.chance(2, 3)), tf(fix)), hx(content), strings.Join(ops, ";"))
 	}
 	for i := 0; i < n; i++ {
 		sub := r.fork()
